@@ -684,6 +684,34 @@ func (ex *Exec) decodeFixed(c *Cell, t types.Type, in []*Term, pos *int) {
 	}
 }
 
+// binarySize is encoding/binary.Size for fixed-size types: fields are packed, there is no padding.
+func binarySize(t types.Type) int {
+	switch u := t.Underlying().(type) {
+	case *types.Basic:
+		if u.Info()&(types.IsInteger|types.IsFloat) == 0 || u.Kind() == types.Int || u.Kind() == types.Uint || u.Kind() == types.Uintptr {
+			return -1
+		}
+		return width(u) / 8
+	case *types.Array:
+		e := binarySize(u.Elem())
+		if e < 0 {
+			return -1
+		}
+		return e * int(u.Len())
+	case *types.Struct:
+		n := 0
+		for i := 0; i < u.NumFields(); i++ {
+			e := binarySize(u.Field(i).Type())
+			if e < 0 {
+				return -1
+			}
+			n += e
+		}
+		return n
+	}
+	return -1
+}
+
 func (ex *Exec) ifaceMethod(iv *IfaceV, name string) *ssa.Function {
 	ms := ex.eng.prog.MethodSets.MethodSet(iv.t)
 	for i := 0; i < ms.Len(); i++ {
@@ -726,7 +754,10 @@ func (ex *Exec) binaryRead(args []Value) Value {
 	if !ok {
 		panic(pathAbort{why: "binary.Read into non-pointer", incomplete: true})
 	}
-	size := int(ex.eng.sizes.Sizeof(pt.Elem()))
+	size := binarySize(pt.Elem()) // encoding/binary's packed size (no alignment padding), as binary.Size
+	if size < 0 {
+		panic(pathAbort{why: "binary.Read of " + pt.Elem().String(), incomplete: true})
+	}
 	buf := ex.newSlice(types.Typ[types.Uint8], size, size)
 	fn := ex.ifaceMethod(r, "Read")
 	if fn == nil {
